@@ -211,7 +211,18 @@ fn roundtrip(ctx: &mut Ctx, rng: &mut Rng) {
                 _ => rng.range_i64(-30_610_224_000, 253_402_300_799),
             };
             let secs = if $uname == "ns" { secs.clamp(-9_223_372_035, 9_223_372_035) } else { secs };
-            let sub = if rng.chance(0.3) { 0 } else { rng.range_i64(0, $per_sec - 1) };
+            // sub-second part: zero, any, or of one particular magnitude (a single tick, below a
+            // microsecond, below a millisecond, whole milliseconds) - a printer that drops or
+            // shortens the fraction must be visible at every resolution
+            let ps: i64 = $per_sec;
+            let sub = match rng.below(8) {
+                0 | 1 => 0,
+                2 => 1.min(ps - 1),
+                3 => rng.range_i64(0, (ps / 1_000_000).max(1) - 1).max(1.min(ps - 1)),
+                4 => rng.range_i64(0, (ps / 1_000).max(1) - 1).max(1.min(ps - 1)),
+                5 => (rng.range_i64(0, 999) * (ps / 1_000)).min(ps - 1),
+                _ => rng.range_i64(0, ps - 1),
+            };
             let raw: i64 = secs * $per_sec + sub;
             let t = DateTime::<$U>::new(raw);
             ctx.evaluations += 1;
@@ -319,7 +330,7 @@ fn main() {
             }
         }
     }
-    let n = ctx.budget(60000, 2000000);
+    let n = ctx.cbudget(60000, 2000000);
     for _ in 0..n {
         if let Some(mut rng) = ctx.random_case() {
             match rng.below(6) {
